@@ -226,6 +226,37 @@ def oracle_graph(case):
                         out.append(('after the removal of %r collection %s of segment %s differs from the specification'
                                     % (str(x)[:40], k, s.name), w, got))
                         return out
+    if not out:
+        # the removal of a segment takes every record that mentions it: the collections of the other segments are those of
+        # the document without these records (expected from the text, not from what the Gfa still lists)
+        def mentions(l, n):
+            f = l.split('\t')
+            if f[0] in ('L', 'C'):
+                return n in (f[1], f[3])
+            if f[0] in ('E', 'G'):
+                return n in (f[2][:-1], f[3][:-1])
+            if f[0] == 'F':
+                return f[1] == n
+            if f[0] == 'S':
+                return f[1] == n
+            return False
+        for sn in [x.name for x in G.segments if not x.virtual][:6]:
+            G2 = g.Gfa(lines, vlevel=1)
+            r = impl.outcome(lambda: G2.rm(sn))
+            if r[0] != 'ok':
+                continue
+            rest = [l for l in lines if l.split('\t')[0] in ('S', 'L', 'C', 'E', 'G', 'F') and not mentions(l, sn)]
+            exp3 = expected_collections(rest)
+            for s2 in G2.segments:
+                if s2.virtual:
+                    continue
+                for k in COLLS + ['gaps_L', 'gaps_R', 'fragments']:
+                    got = sorted(str(z) for z in getattr(s2, k, []))
+                    w = sorted(exp3.get(s2.name, {}).get(k, []))
+                    if got != w:
+                        out.append(('after the removal of segment %s collection %s of segment %s differs from the specification'
+                                    % (sn, k, s2.name), w, got))
+                        return out
     return out
 
 
